@@ -452,6 +452,56 @@ def oracle_searched_rotations(ck, rng):
                              key={"site": "searched-rotation-pick"}, oracle="searched_rotations")
 
 
+def oracle_matcher_reused_across_scales(ck, rng):
+    """one matcher built from a scale-aware template (ImageProvider) and used on the same specimen sampled at two voxel sizes, in both orders:
+    every call finds every planted particle at its position in nm - nothing prepared for one scale may be used for another"""
+    from acryo import pick, pipe
+
+    def blobs(size):
+        f = size / 12
+        zz, yy, xx = np.indices((size,) * 3, dtype=np.float32)
+        t = np.zeros((size,) * 3, dtype=np.float32)
+        for cz, cy, cx, sg in [(5.5, 5.5, 5.5, 1.4), (5.5, 3.0, 8.0, 1.0), (8.0, 7.5, 4.0, 1.0), (3.5, 8.0, 7.5, 0.9)]:
+            c = (np.array([cz, cy, cx]) + 0.5) * f - 0.5
+            t += np.exp(-((zz - c[0]) ** 2 + (yy - c[1]) ** 2 + (xx - c[2]) ** 2) / (2 * (sg * f) ** 2))
+        return t
+    provider = pipe.from_array(blobs(12), original_scale=0.5)
+    corners_nm = np.array([[3, 4, 5], [13, 15, 14]], dtype=float)
+
+    def specimen(scale, seed):
+        size = int(round(6 / scale))
+        shape = tuple(int(round(x / scale)) for x in (24, 26, 25))
+        r = np.random.default_rng(seed)
+        tomo = r.normal(0.0, 0.02, size=shape).astype(np.float32)
+        cpx = np.round(corners_nm / scale).astype(int)
+        for c in cpx:
+            tomo[tuple(slice(c0, c0 + size) for c0 in c)] += blobs(size)
+        return tomo, (cpx + (size - 1) / 2) * scale
+    for order in ((0.5, 1.0), (1.0, 0.5), (1.0, 1.0, 0.5)):
+        matcher = pick.ZNCCTemplateMatcher(provider)
+        for j, scale in enumerate(order):
+            ck.oracle_count("matcher_reused_across_scales", 1, 1)
+            tomo, want = specimen(scale, 77 + j)
+            try:
+                out = matcher.pick_molecules(tomo, scale, min_distance=3.0, min_score=0.7)
+                pos = np.asarray(out.pos, dtype=float).reshape(-1, 3)
+                bad = None
+                if len(pos) == 0:
+                    bad = "no particle picked"
+                else:
+                    d = np.linalg.norm(pos[:, None, :] - want[None, :, :], axis=2)
+                    if d.min(axis=0).max() > 1.0 * scale:
+                        bad = f"a planted particle has no pick within one voxel (nearest {float(d.min(axis=0).max()):.2f} nm away)"
+                    elif len(pos) != len(want):
+                        bad = f"{len(pos)} picks for {len(want)} planted particles"
+            except Exception as e:  # noqa
+                bad = f"raised {type(e).__name__}: {e}"
+            if bad:
+                ck.violation(what=f"one ZNCCTemplateMatcher(ImageProvider) used at scales {list(order[:j + 1])} in turn: at scale {scale} {bad}",
+                             inp={"scales": list(order[:j + 1]), "scale": scale, "planted_nm": want.tolist()},
+                             key={"site": "matcher-reused", "scales": list(order[:j + 1])}, oracle="matcher_reused_across_scales")
+
+
 def run(ck: common.Check):
     ck.design_ref = "DESIGN.md §6 C20"
     ck.trusted_base = TB
@@ -469,6 +519,7 @@ def run(ck: common.Check):
     oracle_even_template_rotations(ck, np.random.default_rng(ck.seed + 212121))
     oracle_one_pick_per_particle(ck, np.random.default_rng(ck.seed + 222222))
     oracle_searched_rotations(ck, np.random.default_rng(ck.seed + 232323))
+    oracle_matcher_reused_across_scales(ck, np.random.default_rng(ck.seed + 242424))
 
 
 def replay(data):
